@@ -19,6 +19,14 @@ package mod_prison
 // allowed, both orders of same-instant arrivals of different keys. states = timeline prefixes
 // (tree nodes, each carrying the automaton state set), transitions = arrivals (tree edges).
 //
+// Second space (key derivation, configurations "K-..."): for every key recipe the rule syntax
+// offers (UseClientIP, header, Cookie, query, UseHost, UsePath, UseUrl, UrlRegexp, UseHeaders,
+// combinations, UseSocketIP, UseConnectID) there are 2-3 logical clients that differ in key
+// material and, per client, several request shapes that differ only in attributes OUTSIDE the
+// key (source port, socket address, IP byte form, name case, wire order, unrelated headers /
+// cookies / parameters, path, host, session id). All timelines over (offset, client, shape) run
+// through the same handler under the same oracle: the shapes of one client are ONE key.
+//
 // Oracle: the statement's window automaton, per key, kept as a SET of admissible states
 // (non-deterministic reference): Idle | Counting{start,count} | Jailed{free}.
 //   * a period starts with the first request of a key that is not in a running period / jail;
